@@ -6,7 +6,7 @@ UNITS = {
 }
 HARNESSES = [
   dict(name='tg_wait', unit='tg', harness='h_tg.c', defines={'SCEN': 1}, scenarios=[{'N': 1, 'REUSE': 0}, {'N': 2, 'REUSE': 1}],
-       cbmc=['--unwind', '8', '--object-bits', '12'], timeout=900,
+       cbmc=['--unwind', '10', '--object-bits', '12'], timeout=600,
        desc='real task_group::run x N + wait() on the real dispatcher loop, symbolic subset of bodies throws', bounds={'tasks': 'N', 'threads': 1}),
 ]
 OUTSIDE = []
